@@ -315,6 +315,7 @@ func (c *Ctx) ruleKeepAliveStart(rr *RuleRep, m *reconnModel) {
 		rr.Bad(key+"/ctx", kaCall.Pos(), "KeepAlive does not run under a cancellable child context created for this connection")
 		return
 	}
+	c.ruleKeepAliveCtx(rr, m)
 	var cancel ssa.Value
 	for _, u := range *wc.Referrers() {
 		if ex, ok := u.(*ssa.Extract); ok && ex.Index == 1 {
@@ -486,6 +487,7 @@ func checkC17(r *Run) {
 	}
 	// R-C17-4
 	c.ruleHandlerPerMessage(r4)
+	c.ruleReaderDiscipline(r4)
 }
 
 // ruleHandlerPerMessage: every Handler.Serve invoke in serve uses a handler loaded from c.handler under c.mu within the same arm.
@@ -550,4 +552,43 @@ func (c *Ctx) ruleHandlerPerMessage(rr *RuleRep) {
 			}
 		}
 	}
+}
+
+// ruleKeepAliveCtx: the keep-alive context of a connection is derived from the loop context as it is AFTER the once-only
+// switch to context.Background() — otherwise the first connection's keep-alive dies with the caller's Connect context and
+// puts `context canceled` into a healthy connection.
+func (c *Ctx) ruleKeepAliveCtx(rr *RuleRep, m *reconnModel) {
+	f := m.F
+	key := FuncName(f) + "/keepalive-ctx"
+	var wc *ssa.Call
+	eachInstr(f, func(in ssa.Instruction) {
+		if k, ok := in.(*ssa.Call); ok && isStdCall(&k.Call, "context", "WithCancel") {
+			wc = k
+		}
+	})
+	if wc == nil {
+		return
+	}
+	var once *ssa.Call
+	eachInstr(f, func(in ssa.Instruction) {
+		if k, ok := in.(*ssa.Call); ok && isStdCall(&k.Call, "sync", "Do") {
+			once = k
+		}
+	})
+	if once == nil {
+		rr.OKt(key, wc.Pos(), "no once-only context switch in the loop")
+		return
+	}
+	// parent operand: a load of the loop's ctx cell taken after the Once.Do call
+	if !Dominated(f, wc, func(x ssa.Instruction) bool { return x == ssa.Instruction(once) }, PathQ{}) {
+		rr.Bad(key, wc.Pos(), "the keep-alive context is derived before the loop switches to context.Background() on the first success: the first connection's keep-alive is tied to the caller's Connect context, and cancelling that context later closes a healthy connection with `context canceled` in Err()")
+		return
+	}
+	if ld, ok := wc.Call.Args[0].(*ssa.UnOp); ok {
+		if ldI := ssa.Instruction(ld); !Dominated(f, ldI, func(x ssa.Instruction) bool { return x == ssa.Instruction(once) }, PathQ{}) {
+			rr.Bad(key, wc.Pos(), "the keep-alive context's parent is read before the once-only switch to context.Background()")
+			return
+		}
+	}
+	rr.OK(key, wc.Pos(), "context.WithCancel(loop ctx) is evaluated after the once-only switch to context.Background()")
 }
